@@ -6,9 +6,11 @@ every case of the MC_Relaxation scope with the clauses of C06 as INVARIANT / PRO
 prints, per (case, variant), the expected rows (t, isf, Qt, X4_Qt, msd, alpha2) or S4 groups as
 Real terms.  Every case is rendered into Snapshots objects (+ a neighbour file in the library's
 format), the public routine is called and every column of every row is compared.
-Direction B: seeded random decimal trajectories (T <= 12, N <= 12, 2-D/3-D, rectangular boxes,
-all modes, masks, neighbour lists) are run through the real code; TraceRelaxation.tla carries the
-loop state per record, decides the discrete observables and prints the expected rows as terms.
+Direction B: seeded random decimal trajectories (T <= 12, N <= 12; some T = 40..70, some N = 100..300;
+2-D/3-D, rectangular and triclinic cells, all modes, masks, neighbour lists; single calls and call
+histories on one or two objects of one trajectory) are run through the real code; TraceRelaxation.tla
+carries the loop state per record and the construction data per object, decides the discrete
+observables and prints the expected rows as terms.
 Scope audit (part "ext" of MC_Relaxation and the trace generator): constant triclinic cells with every
 periodic mask and fractional displacements near +-1/2; call histories on one object (InvSession / the
 session variable of TraceRelaxation); long trajectories (T = 40..70 through the loop machine, T = 260
